@@ -22,6 +22,7 @@ func init() {
 			ruleOmitTagWholeTag(c)
 			ruleUnmarshalParamsErrors(c)
 			ruleEmptyParamsUntouched(c)
+			ruleTaggedEmbeddedKeepsPosition(c)
 			ruleArrayTranslateTotal(c)
 			c.Clause("C15-D4")
 			ruleWrapSnapshot(c)
@@ -46,6 +47,7 @@ func init() {
 			ruleCacheKeysAreIdentities(c)
 			ruleArgsMarshal(c)
 			ruleWrapSnapshot(c)
+			ruleStubsKeepStrictness(c)
 			c.Clause("C16-D2")
 			ruleExactLength(c)
 			c.Clause("C16-D3")
